@@ -960,6 +960,32 @@ fn stream_witness(ctx: &mut Ctx, m: &mut Model) {
     }
 }
 
+const TIE_CLASS: &str = "tensor_checkpoint.retention/newer_dropped_on_timestamp_tie";
+
+/// Directed, seed-independent reproduction of the retention tie finding (runs before the seeded
+/// streams).  `max_checkpoints = 1`, eight checkpoints all stamped with the same harness-clock
+/// second: after each checkpoint retention chooses between the survivor and the one just made, and
+/// the order of the two in `CheckpointStorage::list` is the order of `SlabRouter::scan` (a std
+/// `HashSet` with a per-instance random state over uuid-v4 artifact ids), which nothing can pin
+/// from outside.  Each of the 7 choices drops the newer one with probability about 1/2, so one
+/// attempt misses with probability 2^-7; the case is repeated on a fresh router until the oracle
+/// has fired, at most 64 times (all attempts miss with probability 2^-448).
+fn stream_retention_tie_directed(ctx: &mut Ctx, m: &mut Model) {
+    let mut ops = vec![Op::KPut(0, 0, 1, None)];
+    ops.extend(std::iter::repeat(Op::Ckpt).take(8));
+    let tss = vec![100u64; 8];
+    for _attempt in 0..64 {
+        ctx.rep.hit("witness:retention_tie");
+        let (agreed, _) = run_case(ctx, m, "witness", Mode::Manager, 1, &ops, &tss, true);
+        if !agreed || ctx.per_class.contains_key(TIE_CLASS) {
+            break;
+        }
+    }
+    if ctx.per_class.contains_key(TIE_CLASS) {
+        ctx.rep.hit("witness:retention_tie_shown");
+    }
+}
+
 /// retention alone: own blob store, random timestamp lists with ties, random counts
 fn stream_retention(ctx: &mut Ctx, m: &mut Model, rng: &Rng, cases: usize) {
     let mut r = rng.fork("retention");
@@ -1163,6 +1189,12 @@ fn main() {
         "op:gdele", "op:vput", "op:vdel", "op:vbuild", "op:kput", "op:kdel", "op:ckpt", "op:rollback",
         "res:ok", "res:id", "res:count", "res:err notfound", "res:err exists", "res:err storage",
         "retention:tie_at_boundary", "retention:incremental", "retention:bulk", "raw:restore",
+        "directed:tensor_store.restore_from_bytes/relational_tables_lost",
+        "directed:query_router.rollback/writes_fail_after_rollback",
+        "directed:query_router.rollback/stale_index_after_rollback",
+        "directed:query_router.rollback/stale_hnsw_cache_after_rollback",
+        "directed:query_router.rollback/checkpoints_lost_after_rollback",
+        "directed:tensor_checkpoint.retention/newer_dropped_on_timestamp_tie",
     ]
     .iter()
     .map(|s| s.to_string())
@@ -1170,7 +1202,15 @@ fn main() {
     let rng = Rng::new(args.seed);
     let scale = if args.thorough { 24 } else { 4 };
     let t0 = std::time::Instant::now();
+    // directed, seed-independent reproductions first: every listed finding class must have fired
+    // before any seeded stream runs
     stream_witness(&mut ctx, &mut m);
+    stream_retention_tie_directed(&mut ctx, &mut m);
+    let directed: Vec<String> = ctx.per_class.keys().cloned().collect();
+    for c in &directed {
+        ctx.rep.hit(&format!("directed:{c}"));
+    }
+    ctx.rep.note(&format!("violation classes reproduced by the directed cases before the seeded streams: {}", directed.join(", ")));
     stream_router(&mut ctx, &mut m, &rng, 60 * scale, Mode::Router, "router");
     stream_router(&mut ctx, &mut m, &rng, 60 * scale, Mode::Manager, "manager");
     stream_retention(&mut ctx, &mut m, &rng, 300 * scale);
